@@ -30,10 +30,16 @@ SOLVERS = {"ito": ["euler"], "stratonovich": ["euler_heun", "heun", "midpoint", 
 def _case(draw, tier):
     spec = draw(sdes.generic_specs(noise_types=["diagonal", "scalar", "additive"], dtypes=("float64", "float32")))
     spec["rowdep"] = draw(st.booleans())      # per-sample conditioning: the diffusion differs between batch members
+    # a diffusion returned as one stored tensor (state-independent, valid for every special noise type)
+    spec["gstored"] = draw(st.sampled_from([None, None, None, True]))
     method = draw(st.sampled_from(SOLVERS[spec["sde_type"]]))
     levy = draw(st.sampled_from(["davie", "foster"])) if method == "log_ode" else \
         draw(st.sampled_from(["none", "none", "space-time", "foster"]))
     tset = draw(solve.time_setup(max_steps=16 if tier == "quick" else 48, dtypes=(spec["dtype"],)))
+    if spec["dtype"] == "float64" and draw(st.sampled_from([False, False, False, True])):
+        # a time axis far from zero (|t| >> dt): both declarations must still agree
+        shift = draw(st.sampled_from([1e4, -1e5, 86400.0 * 30]))
+        tset = dict(tset, t0=tset["t0"] + shift, t1=tset["t1"] + shift)
     return {"spec": spec, "method": method, "levy": levy, "time": tset,
             "outs": draw(st.lists(st.floats(0.01, 0.99), min_size=0, max_size=3)),
             "entropy": draw(st.integers(0, 2 ** 31 - 2)), "adaptive": draw(st.sampled_from([False, False, True]))}
@@ -63,6 +69,13 @@ def enumerate_cases(tier):
                         yield {"spec": spec, "method": method, "levy": levy, "outs": [0.4], "adaptive": adaptive,
                                "time": {"t0": 0.1, "t1": 0.1 + 5 * 0.125, "dt": 0.125, "tdtype": "float64"},
                                "entropy": rnd.randrange(2 ** 31 - 2)}
+                        if not adaptive:
+                            # the same cell on a time axis far from zero (|t| >> dt), with a stored diffusion tensor
+                            far = rnd.choice([1e4, -1e5, 2.5e6])
+                            yield {"spec": dict(spec, gstored=(idx % 2 == 0) or None), "method": method, "levy": levy,
+                                   "outs": [0.4], "adaptive": False,
+                                   "time": {"t0": far + 0.1, "t1": far + 0.1 + 5 * 0.125, "dt": 0.125, "tdtype": "float64"},
+                                   "entropy": rnd.randrange(2 ** 31 - 2)}
 
 
 def run_case(case):
@@ -92,7 +105,7 @@ def run_case(case):
     steps = (tm["t1"] - tm["t0"]) / tm["dt"]
     labels = [f"{spec['sde_type']}/{spec['noise_type']}/{case['method']}", f"levy={case['levy']}",
               f"dtype={spec['dtype']}", "bit_identical" if torch.equal(a, b) else "differs_in_last_bits",
-              "adaptive" if case.get("adaptive") else "fixed"] + (["per_sample_conditioning"] if spec.get("rowdep") else [])
+              "adaptive" if case.get("adaptive") else "fixed"] + (["per_sample_conditioning"] if spec.get("rowdep") else []) + (["stored_diffusion_tensor"] if spec.get("gstored") else [])
     fail = None
     if not (e <= 1e3 * eps) or not bool(torch.isfinite(a).all()):
         fail = Fail("special_vs_general", f"{spec['noise_type']} declaration and its general embedding disagree with "
